@@ -2,6 +2,7 @@ import EaselModel.Generated.Gencode
 import EaselModel.Generated.Alphabets
 import EaselModel.Gencode.NcbiTables
 import EaselModel.Gencode.Lemmas2
+import EaselModel.Gencode.OrfLemmas3
 import EaselModel.Alphabet.Iupac
 /-! # C17 — property theorems (statements + glue only; lemmas live in Gencode/*.lean)
 
@@ -129,7 +130,33 @@ theorem window_split_invariant (nt aa : Alphabet) (g : Gencode) (cfg : Cfg) (w :
     runStrand nt aa g cfg w isRev d (k :: ks) = runStrand nt aa g cfg w isRev d [d.length] :=
   runStrand_split nt aa g cfg w isRev d k ks hk hs
 
+/-- **six-frame translation reports exactly the ORFs of each reading frame.** For ANY table, every DNA sequence of valid
+    codes (canonical and degenerate), every minimum length, either strand (`isRev`), every initiator option and EVERY split
+    into windows: the machine does not fault, and for each of the three frames of the strand the ORF records it emits
+    (coordinates + residues, newest first, in front of whatever the output block held before) are those of
+    `frameOrfs`, the sequential one-frame ORF finder `fstep` (open at an initiator — first residue M when initiators are
+    required —, close at a stop with end coordinate just before it, keep if ≥ minlen, flush at the end of the strand with
+    the end coordinate of the frame's last complete codon) run over that frame's codons, each translated by
+    `codonAa`/`specInitiator` (the specification of `translation_spec`/`initiator_spec`). Coordinates are 1-based source
+    coordinates: ascending from 1 on the top strand, descending from L on the reverse strand (`dirOf`, frame labels 4–6). -/
+theorem orf_stream_eq_spec (nt aa : Alphabet) (g : Gencode) (cfg : Cfg) (hn : NtOK nt) (hg : CodeOK g) (w0 : Work)
+    (isRev : Bool) (d : List Nat) (hv : ∀ x ∈ d, x < nt.Kp) (k : Nat) (ks : List Nat) (hk : 2 ≤ k)
+    (hs : (k :: ks).sum = d.length) :
+    ∃ w', runStrand nt aa g cfg w0 isRev d (k :: ks) = some w' ∧
+      ∀ f, f < 3 → recsOf w'.c.out (f + 1 + labelOff isRev) =
+        frameOrfs nt aa g cfg (dirOf isRev) (if isRev then (d.length : Int) else 1) d f ++
+          recsOf w0.c.out (f + 1 + labelOff isRev) :=
+  runStrand_spec nt aa g cfg hn hg w0 isRev d hv k ks hk hs
+
 /-! ## non-vacuity -/
+-- ATGAAATAAATGCCCTAGG in the standard code, any-initiator, minlen 0, top strand, windows 4+5+10:
+-- frame 1: MK (1..6), MP (10..15); frame 2: * K * M P * → "" ; the finder and the machine agree
+example : (T.tables.head?.map fun t =>
+    let g := setInitiatorAny A.amino (codeOf t)
+    let d := [0,3,2,0,0,0,3,0,0,0,3,2,1,1,1,3,0,2,2]
+    ((runStrand A.dna A.amino g ⟨false, 0⟩ {} false d [4, 5, 10]).map fun w => recsOf w.c.out 1,
+     frameOrfs A.dna A.amino g ⟨false, 0⟩ 1 1 d 0)) =
+    some (some [⟨10, 15, [10, 12]⟩, ⟨1, 6, [10, 8]⟩], [⟨10, 15, [10, 12]⟩, ⟨1, 6, [10, 8]⟩]) := by decide +kernel
 example : NtOK A.dna := by decide +kernel
 example : ∃ t ∈ T.tables, CodeOK (codeOf t) := ⟨_, List.mem_cons_self .., by decide⟩
 -- GGR = Gly, TAR = stop, ATH = Ile, MGR = Arg (AGA, AGG, CGA, CGG), YTG ≠ shared in the standard code? (CTG Leu, TTG Leu) = Leu
